@@ -62,6 +62,22 @@ def build():
     t0 = time.time()
     with open(os.path.join(BUILD, "lock"), "w") as lk:
         fcntl.flock(lk, fcntl.LOCK_EX)
+        # cargo-kani re-runs the Kani compiler on the workspace crate on every invocation (2 min)
+        # even when nothing changed; so the encoder's inputs are fingerprinted here: every file of
+        # the repository that can influence the encoding + the harness files. Any difference =>
+        # full re-encode of /repo's current working tree.
+        digest = tree_digest()
+        stamp = os.path.join(BUILD, "encode.stamp")
+        if os.path.exists(stamp) and open(stamp).read() == digest:
+            metas = find_metas()
+            if metas:
+                metas.sort(key=os.path.getmtime)
+                try:
+                    meta = json.load(open(metas[-1]))
+                    if all(os.path.exists(h["goto_file"]) for h in meta["proof_harnesses"][:5]):
+                        return meta, time.time() - t0
+                except Exception:
+                    pass
         cmd = ["cargo", "kani", "-p", "rs-matter", "--no-default-features", "--features", FEATURES,
                "--target-dir", KANI_TARGET, "--only-codegen", "-Z", "stubbing"]
         r = subprocess.run(cmd, cwd=REPO, env=ENV, capture_output=True, text=True)
@@ -77,7 +93,31 @@ def build():
         metas.sort(key=os.path.getmtime)
         meta = json.load(open(metas[-1]))
         prune_stale(metas[-1])
+        open(stamp, "w").write(digest)
     return meta, time.time() - t0
+
+
+def tree_digest():
+    h = hashlib.sha256()
+    roots = [os.path.join(REPO, d) for d in ("rs-matter", "rs-matter-macros", "rs-matter-codegen")]
+    files = [os.path.join(REPO, "Cargo.toml"), os.path.join(REPO, "Cargo.lock")]
+    for root in roots:
+        for dp, dn, fn in os.walk(root):
+            dn[:] = sorted(d for d in dn if d not in ("target", ".git"))
+            for f in sorted(fn):
+                files.append(os.path.join(dp, f))
+    for f in sorted(glob.glob(os.path.join(VERIF, "kani", "*.rs"))):
+        files.append(f)
+    h.update(FEATURES.encode())
+    for f in files:
+        try:
+            with open(f, "rb") as fh:
+                h.update(f.encode())
+                h.update(b"\0")
+                h.update(fh.read())
+        except OSError:
+            h.update(b"<missing>")
+    return h.hexdigest()
 
 
 def find_metas():
@@ -245,6 +285,8 @@ def classify(h, res):
             reached = reach.get(m.group(1)) if m else None
             if reached == "FAILURE" or st == "FAILURE":
                 out["harness_asserts_reached"] += 1
+            elif reached == "SUCCESS" and "ROLE:NEVER:" in p.get("description", ""):
+                out["harness_asserts"] -= 1  # expected-unreachable guard of vok!/vsome!
             elif reached == "SUCCESS":
                 out["inconclusive"].append("vacuous: assertion never reached: %s (line %s)" % (role_of(p), loc.get("line")))
         if st == "FAILURE":
@@ -369,7 +411,10 @@ def value_to_int(v):
 
 
 def get_trace(h, cfg, binary, prop, timeout, mem):
-    r = sh(cbmc_cmd(h, cfg, binary, extra=["--trace", "--property", prop]), timeout=timeout, mem_gb=mem)
+    # no --slice-formula here: slicing drops draws the property does not depend on from the trace,
+    # which would shift the replay vector
+    cmd = [c for c in cbmc_cmd(h, cfg, binary, extra=["--trace", "--property", prop]) if c != "--slice-formula"]
+    r = sh(cmd, timeout=timeout, mem_gb=mem)
     res, status, msgs = parse_cbmc_json(r.stdout)
     if not res:
         return None
@@ -380,14 +425,33 @@ def get_trace(h, cfg, binary, prop, timeout, mem):
 
 
 def draws_of(trace):
-    seen_lhs = []
+    """One value per call of kani::any_raw_internal::<T> (= per harness draw), in call order: the
+    last assignment to its local `var_0` before the function returns."""
     vals = []
-    for lhs, val, fn in extract_draws(trace):
-        # one draw = one assignment to the local that receives the nondet value
-        if not re.search(r"var_0$|::1::var_0|any_raw_internal.*::var_", lhs):
-            continue
-        vals.append(val)
-        seen_lhs.append(lhs)
+    depth_any = 0
+    cur = None
+    for st in trace:
+        t = st.get("stepType")
+        if t == "function-call":
+            fn = st.get("function", {})
+            name = (fn.get("displayName", "") if isinstance(fn, dict) else str(fn))
+            if "any_raw_internal" in name or "any_raw_inner" in name:
+                depth_any += 1
+                cur = None
+        elif t == "function-return":
+            fn = st.get("function", {})
+            name = (fn.get("displayName", "") if isinstance(fn, dict) else str(fn))
+            if ("any_raw_internal" in name or "any_raw_inner" in name) and depth_any > 0:
+                depth_any -= 1
+                if depth_any == 0:
+                    vals.append(cur if cur is not None else 0)
+                    cur = None
+        elif t == "assignment" and depth_any > 0:
+            lhs = st.get("lhs", "")
+            if re.search(r"var_0$", lhs):
+                v = value_to_int(st.get("value", {}))
+                if v is not None:
+                    cur = v
     return vals
 
 
@@ -577,7 +641,10 @@ def run_arith(h, cfg, binary, rec, timeout, mem):
 # native replay
 # --------------------------------------------------------------------------------------------
 def replay_build():
-    env = dict(ENV, RUSTFLAGS="--cfg verif_replay")
+    # release: the repository's profile minus fat LTO / single codegen unit (10+ min link otherwise);
+    # what matters for replay is overflow-checks = off, debug-assertions = off, opt-level = z
+    env = dict(ENV, RUSTFLAGS="--cfg verif_replay", CARGO_PROFILE_RELEASE_LTO="off",
+               CARGO_PROFILE_RELEASE_CODEGEN_UNITS="16")
     with open(os.path.join(BUILD, "lock.replay"), "w") as lk:
         fcntl.flock(lk, fcntl.LOCK_EX)
         out = {}
